@@ -47,7 +47,11 @@ impl OperationControl for Capture {
         position: usize,
     ) -> Box<dyn Iterator<Item = usize> + 'a> {
         if (matcher.program.optimization_flags & OPT_HASBACKREFS) != 0 {
+            // until the group has matched here, a back-reference to it sees
+            // the empty string at this position (and never a start that lies
+            // behind the end an earlier attempt left)
             matcher.set_start_backref(self.group_nr, Some(position));
+            matcher.set_end_backref(self.group_nr, Some(position));
         }
         let basis = self.child_op.matches_iter(matcher, position);
 
